@@ -156,7 +156,20 @@ func seqJobList(prop, tier string) []*SeqJob {
 	case "C13":
 		return c13Jobs(tier)
 	case "C14":
-		return []*SeqJob{c13StringLengthJob("C14", tier)}
+		// (... and, for panics and hangs only: the Allocate/Report/Flush histories of C13 on a queue of one and the
+		// many-refused-messages histories of C15, each followed by Close)
+		out := []*SeqJob{c13StringLengthJob("C14", tier)}
+		for _, j := range c13Jobs(tier) {
+			if strings.HasPrefix(j.Name, "allocate-report-flush-histories-") && strings.HasSuffix(j.Name, "queue1") {
+				out = append(out, borrowCrashes("C14", j))
+			}
+		}
+		for _, j := range c15ReporterJobs(tier) {
+			if strings.HasPrefix(j.Name, "reporter-survives-many-refused-messages-") {
+				out = append(out, borrowCrashes("C14", j))
+			}
+		}
+		return out
 	}
 	return nil
 }
@@ -307,6 +320,17 @@ func replaySeq(v *Violation) int {
 	}
 	fmt.Printf("VIOLATION property=%s clause=%q\n%s\n", v.Property, cl, det)
 	return 1
+}
+
+// borrowCrashes registers a job of a sibling property under prop for what it shows about panics, hangs and deadlocks
+// only (the "never panics, never hangs" clause of prop, on the sibling's histories).
+func borrowCrashes(prop string, j *SeqJob) *SeqJob {
+	c := *j
+	c.Property = prop
+	c.Only = func(clause string) bool {
+		return strings.HasPrefix(clause, "panic") || clause == "hang" || clause == "deadlock" || clause == "livelock" || strings.HasPrefix(clause, "process-crash")
+	}
+	return &c
 }
 
 // borrow registers a job of a sibling property under prop as well (the clause it checks is part of both statements).
